@@ -89,8 +89,10 @@ impl Config {
                         }
                     };
                     if let Some(i) = samples.iter().position(|x| x == s) {
-                        // IndexMap semantics: a later duplicate overwrites the value
-                        map[i] = Some(id);
+                        // a sample listed more than once keeps its first population
+                        if map[i].is_none() {
+                            map[i] = Some(id);
+                        }
                     }
                 }
                 (map, labels.len())
@@ -244,6 +246,12 @@ pub fn gen_config(rng: &mut Rng, samples: &[String], p: &CallSetParams) -> Confi
             .collect();
         if list.is_empty() {
             list.push((samples[0].clone(), None));
+        }
+        // now and then a sample is listed twice (same label), anywhere in the list
+        if rng.chance(1, 10) {
+            let e = rng.pick(&list).clone();
+            let at = rng.range(0, list.len());
+            list.insert(at, e);
         }
         Some(list)
     };
